@@ -364,13 +364,17 @@ def prog_cases(tier):
                 if tie(s1) and tie(s2):
                     # two tie-forking operations on (2,3) operands exceed the path budget; such pairs run in the quick tier on (2,2)
                     continue
+                if tie(s2) and ("z" in s2.replace("mg.maximum", "") or any(k in s1 for k in ("reshape(-1)", "concatenate", "broadcast_to"))):
+                    # the tie-forking op would act on >= 12 broadcast elements (3^12 orderings): beyond the path budget
+                    continue
                 progs.append("v1 = %s\nv2 = %s\nout = v2" % (s1, s2))
         small = ["x", "y", "2.0"]
         n3 = 0
         f1 = _stmts(small, U=REDUCED_U, B=REDUCED_B)
         for s1 in f1:
             for s2 in _stmts(small + ["v1"], must_use="v1", U=REDUCED_U, B=REDUCED_B):
-                for s3 in _stmts(small + ["v1", "v2"], must_use="v2", U=REDUCED_U, B=REDUCED_B):
+                for s3 in _stmts(small + ["v1", "v2"], must_use="v2", U=REDUCED_U, B=[b for b in REDUCED_B if "maximum" not in b]):
+                    # (maximum of two derived polynomial operands makes every path-feasibility query nonlinear: minutes per program)
                     n3 += 1
                     if n3 % 8 == 0:  # stated bound: every 8th depth-3 program
                         progs.append("v1 = %s\nv2 = %s\nv3 = %s\nout = v3" % (s1, s2, s3))
